@@ -265,6 +265,58 @@ def history_item(pair):
     return {"n": len(seq), "fails": fails[:4]}
 
 
+def benchmark_item(job):
+    """`python -m synrbl benchmark` (argparse entry, in process): a result table whose
+    rebalanced reaction is an order / spelling variant of the expected reaction must be
+    counted correct in every row, for the given similarity method"""
+    import contextlib
+    import csv
+    import io
+    import json as _json
+    import os
+    import shutil
+    import tempfile
+
+    method, rxns = job
+    rows = []
+    for x in rxns:
+        for v, _ in variants(x, "perm+rev"):
+            rows.append((x, v))
+    d = tempfile.mkdtemp(prefix="c17bench_", dir="/dev/shm" if os.path.isdir("/dev/shm") else None)
+    try:
+        src = os.path.join(d, "result.csv")
+        with open(src, "w", newline="") as f:
+            w = csv.writer(f)
+            w.writerow(["reaction", "expected_reaction", "solved", "solved_by", "confidence"])
+            for i, (x, v) in enumerate(rows):
+                w.writerow([v, x, True, "rule-based" if i % 2 else "mcs-based", 1.0])
+        n_rb = sum(1 for i in range(len(rows)) if i % 2)
+        n_mcs = len(rows) - n_rb
+        with open(src + ".stats", "w") as f:
+            _json.dump({"reaction_cnt": len(rows), "balanced_cnt": 0, "rb_applied": n_rb, "rb_solved": n_rb,
+                        "mcs_applied": n_mcs, "mcs_solved": n_mcs, "confident_cnt": n_mcs}, f)
+        out = os.path.join(d, "bench.json")
+        import synrbl.SynCmd as cmd
+
+        sink = io.StringIO()
+        try:
+            with contextlib.redirect_stderr(sink), contextlib.redirect_stdout(sink):
+                args = cmd.setup_argparser().parse_args(["benchmark", src, "-o", out, "--similarity-method", method])
+                args.func(args)
+        except (Exception, SystemExit) as e:
+            return {"n": len(rows), "fails": [{"key": ["benchmark", "raises"], "what": "benchmark raised {}: {}".format(type(e).__name__, str(e)[:120])}]}
+        with open(out) as f:
+            res = _json.load(f)
+        fails = []
+        if res.get("total_correct") != len(rows):
+            fails.append({"key": ["benchmark", "variant-not-counted-correct", method],
+                          "what": "benchmark --similarity-method {} counts {} of {} rows correct although every rebalanced reaction is an order/spelling variant of its expected reaction".format(
+                              method, res.get("total_correct"), len(rows))})
+        return {"n": len(rows), "fails": fails}
+    finally:
+        shutil.rmtree(d, ignore_errors=True)
+
+
 def sym_reactions():
     lefts = list(universe.multisets(SYM_LEFT, 2))
     return [".".join(l) + ">>" + r for l in lefts for r in SYM_RIGHT]
@@ -374,6 +426,13 @@ def run(tier, seed):
                               "after normalising sides with {} and {} in other multiplicities: {} vs {}: {}".format(
                                   p[0], p[1], f["x"], f["v"], f["observed"])))
     counts["histories"] = {"evaluations": sum(r["n"] for r in rh), "nontrivial": len(hpairs)}
+    brx = rx2[:: max(1, len(rx2) // (400 if tier == "thorough" else 120))]
+    bjobs = [(m, brx[i::4]) for m in METHODS for i in range(4)]
+    rb = pmap("checks.c17:benchmark_item", bjobs, chunk=1, seed=seed)
+    for j, r in zip(bjobs, rb):
+        for f in r["fails"][:1]:
+            res.add(Violation("benchmark", {"method": j[0], "rxns": j[1]}, None, None, f["key"], f["what"]))
+    counts["benchmark-cli"] = {"evaluations": sum(r["n"] for r in rb), "nontrivial": len(bjobs)}
     res.coverage = {
         "evaluations": sum(c["evaluations"] for c in counts.values()),
         "distinct_nontrivial": counts["reactions"]["nontrivial"]
@@ -415,6 +474,9 @@ def run(tier, seed):
 
 def replay(v):
     out = []
+    if v.sub == "benchmark":
+        r = benchmark_item((v.case["method"], v.case["rxns"]))
+        return [Violation("benchmark", v.case, None, None, f["key"], f["what"]) for f in r["fails"] if f["key"] == v.key][:1]
     if v.sub == "history":
         r = history_item(tuple(v.case["pair"]))
         return [Violation("history", v.case, f["observed"], f["expected"], f["key"], "history") for f in r["fails"] if f["key"] == v.key][:1]
